@@ -8,7 +8,8 @@ CLASSES = ["pess", "opt", "mcs"]
 
 
 def all_builds():
-    b = ["lock_stress.plain", "lock_stress.tsan", "lock_stress.asan"]
+    b = ["lock_stress.plain", "lock_stress.tsan", "lock_stress.asan",
+         "zipf_mon.plain", "zipf_mon.asanfatal", "zipf_mon.tsan"]
     return b
 
 
@@ -182,7 +183,63 @@ def spec_C13(prop, tier, seed, t0):
     return _mk(prop, tier, seed, t0, jobs, {"prepare_owning": 500, "prepare_optimistic": 5000})
 
 
+ZIPF_ASSUME = [
+    "inputs are sampled from dense but finite sets (all n <= 300, neighbourhoods of 100/101/1000/1100/10^4, random "
+    "n, alpha grid + special values, four integer types); breakpoints of large distributions are sampled",
+    "admissible input = max-min+1 and that value + 1 representable in IntType (approximate class: n <= type max - 200)",
+    "reference values are computed in long double",
+]
+
+
+def zipf_jobs(mode, seed, scale, flavor="plain", shards=16, abort_prop=None, timeout=1800):
+    return [Job("zipf_mon.%s" % flavor, {"mode": mode, "seed": seed, "part": i, "of": shards, "scale": scale},
+                timeout=timeout, tag="%s shard %d/%d" % (mode, i, shards), cost=2, abort_prop=abort_prop)
+            for i in range(shards)]
+
+
+def spec_C06(prop, tier, seed, t0):
+    scale = 1 if tier == "quick" else 8
+    jobs = zipf_jobs("c06", seed, scale, "asanfatal", abort_prop="C06")
+    if tier != "quick":
+        jobs += zipf_jobs("c06", seed + 1000, 12, "plain")
+    rule = ("one evaluation = one call of operator() with a scripted or mt19937_64 engine, judged against GetCDF "
+            "with the uniform variate recomputed from a copy of the engine; engine words are placed on, just below "
+            "and just above CDF breakpoints (floor(c*2^64) + d*2^j); distinct non-trivial cases = distinct "
+            "(class, integer type, bin-count class, skew class, placement of [min,max]) combinations exercised")
+    return _mk(prop, tier, seed, t0, jobs, {"draws_u_below_breakpoint": 100000, "draws_u_equal_breakpoint": 100000,
+                                           "draws_u_above_breakpoint": 100000, "distinct_nontrivial": 100},
+               rule=rule, assumptions=ZIPF_ASSUME + ["built with ASan+UBSan, reports fatal: any report inside "
+                                                     "operator()/GetCDF aborts the shard and is a violation"])
+
+
+def spec_C18(prop, tier, seed, t0):
+    scale = 1 if tier == "quick" else 8
+    jobs = zipf_jobs("c18", seed, scale, "plain")
+    if tier != "quick":
+        jobs += zipf_jobs("c18", seed, 1, "asanfatal", abort_prop="C18")
+    rule = ("one evaluation = one GetCDF value compared with the long-double reference (exact class) or with the "
+            "exact class (approximate class); distinct non-trivial cases = distinct (class, integer type, bin-count "
+            "class, skew class) combinations")
+    return _mk(prop, tier, seed, t0, jobs, {"cdf_values_checked": 5000000, "approx_pairs_in_bound_domain": 2000,
+                                           "distinct_nontrivial": 40}, rule=rule, assumptions=ZIPF_ASSUME)
+
+
+def spec_C19(prop, tier, seed, t0):
+    scale = 2 if tier == "quick" else 40
+    jobs = zipf_jobs("c19", seed, scale, "plain")
+    jobs += zipf_jobs("c19", seed + 7, max(1, scale // 2), "tsan", shards=8)
+    rule = ("one evaluation = one draw; for every sampled parameter set the sequences of an equal-parameter twin, a "
+            "second pass, copies, moved generators and of 2-6 threads sharing one const generator are compared "
+            "element-wise with the reference sequence; constructors with max < min must throw; the TSan build "
+            "reports any data race on the shared generator; distinct = (class, type, n class, thread count)")
+    return _mk(prop, tier, seed, t0, jobs, {"sequences_compared": 2000, "rejections_checked": 100,
+                                           "distinct_nontrivial": 30}, rule=rule, assumptions=ZIPF_ASSUME)
+
+
 SPECS = {
+    "C06": spec_C06,
+    "C18": spec_C18,
+    "C19": spec_C19,
     "C02": spec_C02,
     "C03": spec_C03,
     "C09": spec_C09,
